@@ -122,6 +122,19 @@ def universe(tier):
         for na in NA:
             for bn in ('lit', 'list'):
                 yield ('re-entrant', e, [('A', na), ('B', BODIES_B[bn])], 'ab!:4', False, [])
+    # an alias rule (its whole body is a reference, no probe of its own): the aliased rule is reached through the alias and
+    # directly at one position; and a rule passed as a template argument, reached through the parameter and directly
+    AL = ('ref', 'Al')
+    for e in (('choice', ('seq', AL, ('str', '!')), ('seq', A_, ('str', '?')), A_), ('seq', ('expect', AL), A_), ('longest', AL, ('seq', A_, B_)),
+              ('choice', ('seq', A_, ('str', '!')), AL)):
+        for an in ('lit', 'seqfail', 'class', 'list'):
+            yield ('alias-rule', e, [('A', BODIES_A[an]), ('B', BODIES_B['lit']), ('Al', ('rule', None, A_))], 'ab!?:4', False, [])
+    P1 = ('call', 'P1', [A_], [])
+    P2 = ('call', 'P2', [], [('q', A_)])
+    TP = [('P1', ('rule', ['p'], ('seq', ('ref', 'p'), ('str', '!')))), ('P2', ('rule', ['q'], ('seq', ('expect', ('ref', 'q')), ('ref', 'q'), ('str', '?'))))]
+    for e in (('choice', P1, P2, A_), ('seq', ('expect', P1), A_), ('choice', ('seq', A_, ('str', ';')), P1, P2), ('longest', P1, A_, P2)):
+        for an in ('lit', 'seqfail', 'class', 'list'):
+            yield ('rule-as-argument', e, [('A', BODIES_A[an]), ('B', BODIES_B['lit'])] + TP, 'ab!?:4', False, [])
     # a long input: more memo entries than any plausible size cap, then backtracking over the whole input
     LONG = [('S1', ('rule', None, ('star', A_))), ('S2', ('rule', None, ('star', ('choice', A_, B_)))), ('A', ('rule', None, ('str', 'a'))),
             ('B', ('rule', None, ('str', 'b')))]
@@ -189,7 +202,7 @@ def run_job(job):
     # (inside an ignore rule every literal is itself followed by a skip, so the probe must not
     # match the empty string: it would re-enter the skip at the end of the text for ever)
     iprobe = lambda i: ('opt', ('expect', ('apply', ('re', '(?s).+'), ('py', 'tick_Ig%d' % i))))
-    ispec = Spec([(n, probe(n, d)) for n, d in rules], py=[PY],
+    ispec = Spec([(n, (probe(n, d) if n in ('start', 'A', 'B', 'S', 'S1', 'S2') else d)) for n, d in rules], py=[PY],
                  ignores=[('right', iprobe(i), p) for i, p in enumerate(ign)])
     desc = render.spec(ispec)
     b = impl.build(desc)
